@@ -5,7 +5,7 @@
     (Gen/StreamConsts.v, Gen/HelloConsts.v). *)
 From Coq Require Import List NArith Bool.
 From Verif Require Import Lib.Bytes Sni.Wire Sni.Hello Sni.HelloProofs Sni.Stream Sni.StreamProofs
-  Sni.StreamClose Sni.ReadBuf Sni.ReadBufProofs Sni.ReadHold Sni.ReadHoldProofs Sni.PendingAge Sni.PendingAgeProofs Sni.SideRead Sni.SideReadProofs Sni.StreamGen Gen.StreamConsts Gen.HelloConsts Gen.WireSchema Sni.WireGen.
+  Sni.StreamClose Sni.ReadBuf Sni.ReadBufProofs Sni.ReadHold Sni.ReadHoldProofs Sni.PendingAge Sni.PendingAgeProofs Sni.TunnelCtx Sni.SideRead Sni.SideReadProofs Sni.StreamGen Gen.StreamConsts Gen.HelloConsts Gen.WireSchema Sni.WireGen.
 Import ListNotations.
 Local Open Scope N_scope.
 
@@ -365,6 +365,28 @@ Theorem C01_pending_call_does_not_age_refuted : forall w,
   ~ In 0%nat (p_pending s) /\ In 0%nat (p_evicted s).
 Proof. exact window_evicts_old_call. Qed.
 Print Assumptions C01_pending_call_does_not_age_refuted.
+
+(** ** Delivery does not depend on the lifetime of the dial's context
+
+    The context stored in a tunnel, as emitted from the current source, is its
+    own (context.TODO()), and hostConn derives no timeout / cancellable
+    context: whenever the dial's context ends, an RPC of the tunnel at any
+    instant still delivers. *)
+Theorem C01_delivery_independent_of_dial_ctx : forall dial_done t,
+  origin_of gen_tunnel_ctx_origin = Some CtxOwn /\ gen_hostconn_ctx_derivations = [] /\
+  rpc_delivers dial_done CtxOwn t = true.
+Proof.
+  exact (fun dial_done t => conj (proj1 gen_tunnel_ctx_own)
+                                 (conj (proj2 gen_tunnel_ctx_own) (own_ctx_always_delivers dial_done t))).
+Qed.
+Print Assumptions C01_delivery_independent_of_dial_ctx.
+
+(** A tunnel that keeps the dial's context (seeded change C01-k): refuted -
+    from the instant the dial context is done no RPC delivers. *)
+Theorem C01_delivery_independent_of_dial_ctx_refuted : forall d,
+  rpc_delivers (Some d) CtxDial d = false /\ (0 < d -> rpc_delivers (Some d) CtxDial 0 = true).
+Proof. exact dial_ctx_dies. Qed.
+Print Assumptions C01_delivery_independent_of_dial_ctx_refuted.
 
 (** ** The code the models were written against is the code in the tree *)
 Theorem C01_source_tie :
